@@ -908,7 +908,7 @@ theorem recreated_dir_emptyN (ds : List Str) (n : Str) (hds : ∀ c ∈ ds, Good
         (marker (renderC (ds ++ [n])))) := by
     unfold pCreateDirN
     rw [hE]
-    simp only [andThen, viewN_marked (contains_of_find hm1), hmkdir, hclear]
+    simp only [andThen, viewN_marked (contains_of_find hm1), pCreateTail, hmkdir, hclear]
   -- the new upper map, key by key
   generalize hmu3 : ((fillDirs mu (chain [] ds)).insert (renderC (ds ++ [n])) dirEntryNow).erase
     (marker (renderC (ds ++ [n]))) = mu3 at hpure
